@@ -834,6 +834,10 @@ impl<C: Ctxt> Ctxt for TraceparentCtxt<C> {
         let (slot, props) =
             incoming_traceparent(None::<fn(&SpanCtxt) -> bool>, props, TraceFlags::ALL);
 
+        // If the props don't carry a traceparent of their own then
+        // capture the current one, so it follows the frame across threads
+        let slot = slot.or_else(get_active_traceparent);
+
         let inner = self.inner.open_push(props);
 
         TraceparentCtxtFrame {
@@ -846,6 +850,10 @@ impl<C: Ctxt> Ctxt for TraceparentCtxt<C> {
     fn open_disabled<P: Props>(&self, props: P) -> Self::Frame {
         let (slot, props) =
             incoming_traceparent(None::<fn(&SpanCtxt) -> bool>, props, TraceFlags::EMPTY);
+
+        // If the props don't carry a traceparent of their own then
+        // capture the current one, so it follows the frame across threads
+        let slot = slot.or_else(get_active_traceparent);
 
         let inner = self.inner.open_disabled(props);
 
